@@ -399,7 +399,11 @@ theorem Inv_dataCmd (q : Quirks) (now : Nat) (c cid : Conn) (s : State) (cmd : C
     · next e st' hp => exact Inv_emit (Inv_pop hI hp hnw) hcp _
     · next hp =>
       have hnot : ¬ (cid = 0 ∧ q.refuseBlockingInTx = true) := fun h => hcid0 h.1
-      simp only [hnot, if_false, List.map_cons, List.map_nil]
+      have hrk : regKeys q [k] = [k] := by
+        unfold regKeys; split
+        · simp [List.eraseDups_cons]
+        · rfl
+      simp only [hnot, if_false, hrk, List.map_cons, List.map_nil]
       have hL0 : cntL s k = 0 := cntL_zero_of_popElem_none hp
       have hW0 : cntW s k = 0 := cntW_zero_of_noWakeFor hnw
       refine hI.add cid k ⟨cid, if t = 0 then none else some (now + t), op⟩ rfl ?_ ?_ hcid0 hcg hcp hnb ?_ ?_ ?_ ?_ ?_ ?_
